@@ -189,6 +189,7 @@ func (c *Conn) Write(p []byte) (int, error) {
 	cp := append([]byte(nil), p...)
 	delay := time.Millisecond
 	fate := "deliver"
+	var recs []*WireRec
 	if c.l != nil {
 		c.l.mu.Lock()
 		silent := c.l.silent[c.side]
@@ -201,7 +202,7 @@ func (c *Conn) Write(p []byte) (int, error) {
 			fate = "silent"
 		}
 		if c.RecordFrames {
-			c.recordFrames(cp, fate)
+			recs = c.recordFrames(cp, fate)
 		}
 	}
 	if fate == "silent" {
@@ -216,20 +217,29 @@ func (c *Conn) Write(p []byte) (int, error) {
 	c.lastAt = at
 	c.mu.Unlock()
 	peer := c.peer
-	time.AfterFunc(at-now, func() { peer.push(cp, false) })
+	time.AfterFunc(at-now, func() {
+		for _, r := range recs {
+			if !peer.isOpen() {
+				break
+			}
+			c.w.delivered(r)
+		}
+		peer.push(cp, false)
+	})
 	return len(p), nil
 }
 
-func (c *Conn) recordFrames(p []byte, fate string) {
+func (c *Conn) recordFrames(p []byte, fate string) (recs []*WireRec) {
 	// netMessageConn / TCPSession write exactly one frame per Write call.
 	for len(p) >= 2 {
 		n := int(binary.LittleEndian.Uint16(p[:2]))
 		if len(p) < 2+n {
 			break
 		}
-		c.w.record(c.l, c.gen, c.name, c.peer.name, p[2:2+n], fate)
+		recs = append(recs, c.w.record(c.l, c.gen, c.name, c.peer.name, p[2:2+n], fate))
 		p = p[2+n:]
 	}
+	return recs
 }
 
 // Close closes this end; the peer reads what is in flight and then EOF.
